@@ -797,6 +797,11 @@ func TestProp(t *testing.T) {
 			mixed = tag[:1] + strings.ToUpper(tag[1:2]) + tag[2:]
 		}
 		values = append(values, "</"+strings.ToUpper(tag)+"><img src=x onerror=a>", "</"+mixed+"><img src=x onerror=a>", "</"+strings.ToUpper(tag[:1])+tag[1:]+" ><b id=i>")
+		// characters whose lower- or upper-case form has another byte length (dotted capital I,
+		// Kelvin sign, A with stroke, sharp s), and other multi-byte text, in FRONT of the end tag
+		for _, pre := range []string{"İstanbul", "300 \u212a", "\u023a", "Straße", "日本 ", "😀", "e\u0301"} {
+			values = append(values, pre+"</"+tag+"><img src=x onerror=a>", pre+" </"+strings.ToUpper(tag)+"><script>alert(1)</script>")
+		}
 	}
 	// values that are not valid UTF-8: a lone lead byte directly in front of each special
 	// character, truncated sequences, stray continuation bytes
